@@ -535,6 +535,7 @@ def run(ck):
             cases.append(c)
     judge(ck, cases, "generated", res, malformed_ok=True)
     run_slices(ck, res)
+    run_bypass(ck, res)
     return res
 
 
@@ -682,3 +683,57 @@ def run_slices(ck, res):
         if ans != real:
             ck.violation(f"remove_SplitSliceRead: model {ans[:200]} real {real[:200]} (consumers {desc})",
                          {"stream": "slice reads", "request": rq, "real": real, "model": ans, "consumers": desc}, found_input=False)
+
+
+def run_bypass(ck, res):
+    """the REAL graph_optimiser_util.bypass_memory_only_ops on generated operators against `SliceRead.bypassDecision`"""
+    import random
+
+    from ethosu.vela import graph_optimiser_util as gou
+    from ethosu.vela.data_type import DataType
+    from ethosu.vela.operation import Op, Operation
+    from ethosu.vela.tensor import Tensor, TensorPurpose
+
+    rng = random.Random(ck.seed * 7717 + 9)
+    reqs, reals = [], []
+    for _ in range(400):
+        x = Tensor([1, 4, 4, 8], DataType.int8, "x")
+        x.purpose = TensorPurpose.FeatureMap
+        prods = []
+        for k in range(rng.choice([0, 1, 1, 1, 2])):
+            p = Operation(Op.MaxPool, f"p{k}")
+            p.run_on_npu = rng.random() < 0.75
+            p.outputs.append(x)
+            x.ops.append(p)
+            prods.append(p)
+        kind = rng.choice([Op.Reshape, Op.Squeeze, Op.ExpandDims, Op.QuantizedReshape, Op.Relu, Op.MaxPool])
+        op = Operation(kind, "op")
+        op.run_on_npu = rng.random() < 0.85
+        op.add_input_tensor(x)
+        y = Tensor([1, 16, 1, 8], DataType.int8, "y")
+        y.purpose = TensorPurpose.FeatureMap
+        op.outputs.append(y)
+        y.ops.append(op)
+        for k in range(rng.choice([0, 0, 0, 1, 2])):
+            other = Operation(Op.Relu, f"r{k}")
+            other.add_input_tensor(x)
+        from ethosu.vela import pass_packing as pp
+
+        reqs.append(f"bypassop {int(op.run_on_npu)} {int(kind in pp.memory_only_ops)} {len(x.consumer_list)} "
+                    f"{'/'.join(str(int(p.run_on_npu)) for p in prods) or '-'}")
+        gou.bypass_memory_only_ops(op, None, None)
+        if op.type == Op.Memcpy:
+            reals.append("memcpy")
+        elif y.ops and y.ops[0] is not op and all(p.outputs == [y] for p in prods):
+            reals.append("bypass")
+        elif y.ops == [] and kind in pp.memory_only_ops and op.run_on_npu and not prods:
+            reals.append("bypass")          # nothing produced the input: the output tensor is left without producer
+        else:
+            reals.append("untouched")
+    answers = ck.model(reqs)
+    for rq, real, ans in zip(reqs, reals, answers):
+        res.evaluations += 1
+        ck.count("bypass_memory_only_" + real)
+        if ans != real:
+            ck.violation(f"bypass_memory_only_ops: model {ans} real {real} ({rq})", {"stream": "bypass memory-only", "request": rq, "real": real,
+                                                                                    "model": ans}, found_input=False)
